@@ -697,6 +697,18 @@ func (fr *FnRun) convert(st *State, x *ssa.Convert) Val {
 	ex := fr.ex
 	v := ex.force(st, fr.value(st, x.X))
 	from, to := x.X.Type(), x.Type()
+	if t, ok := v.(*Term); ok && (isTypeParam(from) || isTypeParam(to)) {
+		// conversion through a type parameter: an uninterpreted function of the value
+		ts, ok2 := scalarSort(to)
+		if !ok2 {
+			panic(abortf("conversion to %s through a type parameter", to))
+		}
+		r := fr.uf("tpconv_"+sanitize(from.String())+"_"+sanitize(to.String()), ts, t)
+		if lo, hi, isInt := intRange(to); isInt {
+			st.assume(And(Le(IntB(lo), r), Le(r, IntB(hi))))
+		}
+		return r
+	}
 	if t, ok := v.(*Term); ok {
 		fb, fu, fint := intBits(from)
 		tb, tu, tint := intBits(to)
